@@ -169,6 +169,10 @@ class GenericGen:
         if const:
             parts.append("const N: usize")
         it.generics_src = "<" + ", ".join(parts) + ">"
+        if r.random() < 0.15 and any(True for _ in it.all_fields()):
+            # declared through macro_rules!: every field type reaches the derive as a `$t:ty` fragment
+            it.via_macro = True if (it.concrete or r.random() < 0.6) else "tymacro"
+            it.tags.append("k:declared-by-macro" if it.via_macro is True else "k:field-types-are-macro-invocations")
         ts_params = [p for p in params if p != concrete]
         self.meta[it.id] = {"role": "definition", "params": params, "ts_params": ts_params, "defaults": list(it.param_defaults),
                             "concrete": concrete, "lifetime": lifetime, "const": const, "uses": uses, "kind": kind,
